@@ -176,6 +176,69 @@ Proof.
   - apply proportion_mono; lia.
 Qed.
 
+(* ------------------------------------------------------------------ the budget SPENextPoints.view hands to the selector *)
+Definition budget_ok (ob : option Z) : Prop := forall b, ob = Some b -> (0 <= b)%Z.
+
+Lemma spe_view_budget_cases ob dim :
+  (forall b, ob = Some b -> (1 <= b)%Z -> spe_view_budget ob dim = b) /\
+  (ob = None \/ ob = Some 0%Z -> spe_view_budget ob dim = (50 * dim)%Z).
+Proof.
+  unfold spe_view_budget, SPE_PHANTOM_BUDGET_FACTOR. split.
+  - intros b -> Hb. destruct (b =? 0)%Z eqn:E; [apply Z.eqb_eq in E; lia|reflexivity].
+  - intros [->| ->]; [|rewrite Z.eqb_refl]; lia.
+Qed.
+
+Lemma spe_view_budget_pos ob dim : (1 <= dim)%Z -> budget_ok ob -> (1 <= spe_view_budget ob dim)%Z.
+Proof.
+  intros Hd Hb. unfold spe_view_budget, SPE_PHANTOM_BUDGET_FACTOR. destruct ob as [b|]; [|lia].
+  specialize (Hb b eq_refl). destruct (b =? 0)%Z eqn:E; [lia|]. apply Z.eqb_neq in E. lia.
+Qed.
+
+(* for every request (no budget, budget 0, positive budget; domain of >= 1 parameters) a phase is served, and it is the
+   selector's phase at the effective budget: the given one when positive, 50 * dim otherwise *)
+Theorem spe_view_phase_total ob dim c f : (1 <= dim)%Z -> budget_ok ob ->
+  let eff := match ob with Some b => if (1 <=? b)%Z then b else (50 * dim)%Z | None => (50 * dim)%Z end in
+  (1 <= eff)%Z /\ spe_view_phase ob dim c f = Some (spe_phase eff c f).
+Proof.
+  intros Hd Hb. cbv zeta.
+  assert (E : spe_view_budget ob dim = match ob with Some b => if (1 <=? b)%Z then b else (50 * dim)%Z | None => (50 * dim)%Z end).
+  { destruct ob as [b|]; [|apply spe_view_budget_cases; left; reflexivity]. specialize (Hb b eq_refl).
+    destruct (1 <=? b)%Z eqn:E1.
+    - apply Z.leb_le in E1. apply spe_view_budget_cases; [reflexivity|exact E1].
+    - apply Z.leb_gt in E1. assert (b = 0%Z) by lia. subst b. apply spe_view_budget_cases. right. reflexivity. }
+  pose proof (spe_view_budget_pos ob dim Hd Hb) as P. rewrite E in P. split; [exact P|].
+  unfold spe_view_phase. rewrite E.
+  match goal with |- context [(?x =? 0)%Z] => destruct (x =? 0)%Z eqn:Z0 end; [apply Z.eqb_eq in Z0; lia|reflexivity].
+Qed.
+
+Theorem spe_view_phase_monotone ob dim f c c' : (1 <= dim)%Z -> budget_ok ob -> (0 <= f)%Z -> (0 <= c <= c')%Z ->
+  match spe_view_phase ob dim c f, spe_view_phase ob dim c' f with
+  | Some (p, _), Some (p', _) => (pphase_ix p <= pphase_ix p')%Z
+  | _, _ => False
+  end.
+Proof.
+  intros Hd Hb Hf Hc.
+  destruct (spe_view_phase_total ob dim c f Hd Hb) as [P ->]. destruct (spe_view_phase_total ob dim c' f Hd Hb) as [_ ->].
+  pose proof (spe_phase_monotone _ f c c' P Hf Hc) as M.
+  destruct (spe_phase _ c f) as [p pr]. destruct (spe_phase _ c' f) as [p' pr']. exact M.
+Qed.
+
+(* the documented table of the Parzen-estimator selector, as a function of the three fractions *)
+Theorem spe_phase_table b c f :
+  let sp := success_progress b c f in let tp := total_progress b c in let pr := success_proportion c f in
+  let p := fst (spe_phase b c f) in
+  (p = PInit <-> sp < 15#100 /\ ~ (30#100 < tp /\ 1#10 < pr)) /\
+  (p = PSko <-> ~ (sp < 15#100 /\ ~ (30#100 < tp /\ 1#10 < pr)) /\ sp < 75#100) /\
+  (p = PCompletion <-> 75#100 <= sp) /\ snd (spe_phase b c f) = sp.
+Proof.
+  cbv zeta. unfold spe_phase. cbn [fst snd].
+  generalize (success_progress b c f) (total_progress b c) (success_proportion c f). intros x t s.
+  unfold spe_phase_of, INITIALIZATION_PHASE_LIMIT, SKO_PHASE_LIMIT, MINIMUM_SUCCESS_THRESHOLD.
+  repeat match goal with |- context [if ?b then _ else _] => destruct b eqn:? end; qsplit;
+  repeat split; intros; try discriminate; try reflexivity; try lra; try tauto;
+  repeat match goal with H : _ /\ _ |- _ => destruct H end; try lra; try (exfalso; tauto).
+Qed.
+
 (* gamma stays a proper fraction whenever the failures are among the observations *)
 Theorem spe_gamma_range b c f u : (1 <= b)%Z -> (0 <= f <= c)%Z ->
   let '(p, progress) := spe_phase b c f in
